@@ -433,7 +433,9 @@ theorem minv_post {S S' : Store Var} {m m' : Mgr} {ps : List Post} (h : MInv S m
     the shared store may grow arbitrarily through other managers (`grow`; they keep it well formed, see
     `store_history_wf`); a refused constraint (`refused`) changes nothing; `newvar` registers a variable name at
     any point (in the Python every literal handed to a posting method comes from `SATManager.newvar`; posting itself
-    registers nothing except the variables the encodings create). -/
+    registers nothing except the variables the encodings create); `solve` is a call of `solve()` in the middle of
+    the history, with whatever the solver answered (it only replaces `self.model`; a `solve()` that raises changes
+    nothing). -/
 inductive Run : Mgr → Store Var → List Post → Mgr → Store Var → Prop
   | done (m : Mgr) (S : Store Var) : Run m S [] m S
   | grow {m : Mgr} {S S' : Store Var} {ps : List Post} {m' : Mgr} {S'' : Store Var} :
@@ -444,6 +446,27 @@ inductive Run : Mgr → Store Var → List Post → Mgr → Store Var → Prop
       m.post S p = .error e → Run m S ps m' S' → Run m S ps m' S'
   | newvar {m : Mgr} {S : Store Var} (v : Var) {ps : List Post} {m' : Mgr} {S' : Store Var} :
       Run (m.newvar v) S ps m' S' → Run m S ps m' S'
+  | solve {m : Mgr} {S : Store Var} (ans : Option (List Int)) {b : Bool} {m1 : Mgr} {ps : List Post} {m' : Mgr}
+      {S' : Store Var} : m.solve ans = .ok (b, m1) → Run m1 S ps m' S' → Run m S ps m' S'
+
+/-- `solve()` only writes `self.model` -/
+theorem solve_fields {m m1 : Mgr} {ans : Option (List Int)} {b : Bool} (h : m.solve ans = .ok (b, m1)) :
+    m1.clauses = m.clauses ∧ m1.codified = m.codified ∧ m1.auxcount = m.auxcount ∧ m1.vars = m.vars := by
+  unfold Mgr.solve at h
+  split at h
+  · simp at h
+  · split at h
+    · simp at h; obtain ⟨_, rfl⟩ := h; simp
+    · split at h
+      · simp at h
+      · simp at h; obtain ⟨_, rfl⟩ := h; simp
+
+theorem minv_solve {S : Store Var} {m m1 : Mgr} {ps : List Post} (h : MInv S m ps) {ans : Option (List Int)} {b : Bool}
+    (hs : m.solve ans = .ok (b, m1)) : MInv S m1 ps := by
+  obtain ⟨hc, hd, ha, _⟩ := solve_fields hs
+  exact ⟨h.wf, fun j hj => (h.cod j (hd ▸ hj)).mono (by simp [hc]) (by simp [hd]),
+    fun j hj => h.coduser j (hd ▸ hj), by rw [hc, hd, ha]; exact h.mentions, by rw [hc]; exact h.sound,
+    by rw [hc, hd]; exact h.complete⟩
 
 theorem minv_run {m : Mgr} {S : Store Var} {ps : List Post} {m' : Mgr} {S' : Store Var} (r : Run m S ps m' S') :
     ∀ qs, MInv S m qs → (∀ p ∈ ps, p.WF) → MInv S' m' (qs ++ ps) := by
@@ -456,6 +479,18 @@ theorem minv_run {m : Mgr} {S : Store Var} {ps : List Post} {m' : Mgr} {S' : Sto
     simpa [List.append_assoc] using this
   | refused _ _ ih => intro qs h hp; exact ih qs h hp
   | newvar v _ ih => intro qs h hp; exact ih qs (minv_newvar h v) hp
+  | solve ans hs _ ih => intro qs h hp; exact ih qs (minv_solve h hs) hp
+
+/-- histories compose -/
+theorem run_trans {m : Mgr} {S : Store Var} {ps : List Post} {m1 : Mgr} {S1 : Store Var} (r : Run m S ps m1 S1) :
+    ∀ {qs : List Post} {m' : Mgr} {S' : Store Var}, Run m1 S1 qs m' S' → Run m S (ps ++ qs) m' S' := by
+  induction r with
+  | done => intro qs m' S' r2; simpa using r2
+  | grow hle hw _ ih => intro qs m' S' r2; exact Run.grow hle hw (ih r2)
+  | ok hpost _ ih => intro qs m' S' r2; exact Run.ok hpost (ih r2)
+  | refused he _ ih => intro qs m' S' r2; exact Run.refused he (ih r2)
+  | newvar v _ ih => intro qs m' S' r2; exact Run.newvar v (ih r2)
+  | solve ans hs _ ih => intro qs m' S' r2; exact Run.solve ans hs (ih r2)
 
 /-- executable form of a history: register `vs`, then post `ps` in order, skipping what is refused; returns the final
     manager, the final store and the accepted constraints -/
